@@ -258,6 +258,53 @@ def limited_parse(text, headroom):
     return f
 
 
+STDIN_SCRIPT = r"""
+import sys
+from fcp.parser import get_fcp
+from fcp.error import Logger
+lg = Logger({})
+try:
+    res = get_fcp(sys.argv[1], lg)
+except BaseException as e:
+    print("ESCAPED %s: %s" % (type(e).__name__, str(e)[:150])); sys.exit(0)
+if res.is_ok():
+    print("OK"); sys.exit(0)
+try:
+    out = lg.error(res.err())
+    print("ERR rendered %d chars" % len(out))
+except BaseException as e:
+    print("RENDER-RAISED %s: %s" % (type(e).__name__, str(e)[:150]))
+"""
+
+
+def one_shot_sources(run):
+    """The schema arrives through a path that can be read only once (a pipe: /dev/stdin): parsing must still
+    return a schema or a renderable error."""
+    import subprocess
+    import sys as _sys
+
+    texts = [
+        'version: "3"\n// c\n// c\nstruct A { a @0: Missing, }\n',
+        '// one\n// two\n// three\nversion: "2"\nstruct A { a @0: u8, }\n',
+        'version: "3"\nstruct A { a @0: u8, }\n\n\nimpl can for A { id: 1.5.5, }\n',
+        'version: "3"\nstruct A { a @0: u8, }\n',
+        'version: "3"\n\n\n\nenum E { }\n',
+    ]
+    for t in texts:
+        try:
+            p = subprocess.run([_sys.executable, "-c", STDIN_SCRIPT, "/dev/stdin"], input=t, capture_output=True, text=True, timeout=120, env=env.child_env())
+        except subprocess.TimeoutExpired:
+            run.violation("parsing a schema piped through /dev/stdin did not finish within 120 s", {"class": "one-shot-source", "text": t})
+            return
+        out = (p.stdout or "").strip().split("\n")[-1] if p.stdout else ""
+        run.count("inputs")
+        run.count("one_shot_sources")
+        if p.returncode != 0 or out.startswith(("ESCAPED", "RENDER-RAISED")) or not out:
+            run.violation("schema piped through /dev/stdin: %s" % (out or (p.stderr or "").strip().split("\n")[-1][:200]), {"class": "one-shot-source", "text": t, "stderr": (p.stderr or "")[-800:]})
+            return
+        run.case(sig="one-shot-source|%s" % out.split()[0])
+
+
 def recursion_fault_sweep(run):
     texts = [
         'version: "3"\nstruct A { a @0: ' + "[" * 30 + "T" + "]" * 30 + ", }",
@@ -324,6 +371,7 @@ def run(run):
                     judge(run, cls + ("-nested" if nested else ""), lambda p=p: PC.parse_file(p), main, {"sub/inner.fcp": body})
                 shutil.rmtree(d, ignore_errors=True)
         if run.shard == 0:
+            one_shot_sources(run)
             for l in LITERALS:
                 t = 'version: "3"\n' + l
                 judge(run, "literal", string_parse(t), t)
@@ -384,6 +432,8 @@ def replay(run, case):
             judge(run, case["class"], lambda: PC.parse_file(p), case["text"], case["files"])
         finally:
             shutil.rmtree(tmp, ignore_errors=True)
+    elif case["class"] == "one-shot-source":
+        one_shot_sources(run)
     elif case["class"] == "stack-headroom":
         m = re.search(r"// parsed with (\d+) stack frames of headroom", case["text"])
         text = case["text"].split("\n// parsed with")[0]
